@@ -217,7 +217,7 @@ def theorems_of(propfile):
     return [(n, (ns + "." + n) if ns else n) for n in names]
 
 
-def audit(prop_id, allow_bv_decide=False, extra_modules=()):
+def audit(prop_id, allow_bv_decide=False, extra_theorems=(), extra_imports=()):
     """Returns dict(ok, theorems=[{name, axioms}], problems=[...])."""
     propfile = os.path.join(LEAN, "Ufw/Props/%s.lean" % prop_id)
     problems = []
@@ -230,8 +230,10 @@ def audit(prop_id, allow_bv_decide=False, extra_modules=()):
     thms = theorems_of(propfile)
     if not thms:
         problems.append("no theorems in " + propfile)
+    thms = thms + [(t.split(".")[-1], t) for t in extra_theorems]
     auditfile = os.path.join(LEAN, "Ufw/Audit/%s.lean" % prop_id)
-    text = "import Ufw.Props.%s\n" % prop_id + "".join("#print axioms %s\n" % full for _, full in thms)
+    text = "import Ufw.Props.%s\n" % prop_id + "".join("import %s\n" % m for m in extra_imports) + \
+        "".join("#print axioms %s\n" % full for _, full in thms)
     write_if_changed(auditfile, text)
     r = sh(["lake", "env", "lean", auditfile], cwd=LEAN)
     out = r.stdout
